@@ -232,7 +232,8 @@ func c10NumSpec(s string) (neg bool, coeff string, exp *big.Int, isFloat bool, f
 	return
 }
 
-// outside the region in which apd's SetString succeeds (Model: JNum.inApdRange)
+// outside the region in which apd's SetString succeeds (Model: JNum.inApdRange): the written
+// exponent, the fraction length, the adjusted exponent or the resulting exponent beyond ±100000
 func c10OutOfApdRange(s string) bool {
 	_, coeff, exp, _, fracLen, wexp, ok := c10NumSpec(s)
 	if !ok {
@@ -241,6 +242,9 @@ func c10OutOfApdRange(s string) bool {
 	lim := big.NewInt(100000)
 	nlim := big.NewInt(-100000)
 	if wexp.Cmp(lim) > 0 || wexp.Cmp(nlim) < 0 || fracLen > 100000 {
+		return true
+	}
+	if exp.Cmp(lim) > 0 || exp.Cmp(nlim) < 0 {
 		return true
 	}
 	adj := new(big.Int).Add(exp, big.NewInt(int64(len(coeff)-1)))
@@ -276,13 +280,18 @@ func c10Witnesses(c *Cfg) {
 	c.Direct(d.ok && string(d.out) == string(doc), "string-raw-bom",
 		"valid JSON string containing a raw U+FEFF is not accepted: "+d.stage+": "+d.err, H(string(doc)))
 	c.OpTag("O", "", "str "+H(string(doc)), c10StrAnswer(ctx, doc))
-	// C10_number_value_false: exponent beyond apd's limits is silently dropped
-	for _, w := range []string{"1e100001", "1e-100001", "1e2147483648"} {
+	// C10_number_value_false: a number beyond apd's exponent limits is REJECTED (since commit
+	// 1674508 an error; a silent change of value — the behaviour before — is a plain violation)
+	for _, w := range []string{"1e100001", "1e-100001", "1e999999", "1e2147483648", "957960.5603E-100000"} {
 		d := c10Decode(ctx, []byte(w), true)
 		got, _ := c10NormNum(string(d.out))
 		want, _ := c10NormNum(w)
-		c.Direct(d.ok && got == want, "number-exponent-out-of-apd-range",
-			fmt.Sprintf("valid JSON number %s decodes and marshals as %q (%s %s)", w, d.out, d.stage, d.err), w)
+		cls := ""
+		if !d.ok && d.stage != "panic" {
+			cls = "number-exponent-out-of-apd-range-rejected"
+		}
+		c.Direct(d.ok && got == want, cls,
+			fmt.Sprintf("valid JSON number %s: %s %s, marshals as %q", w, d.stage, clip(d.err, 120), d.out), w)
 		wv, _ := c10NumAnswer(ctx, []byte(w))
 		c.OpTag("O", "", "num "+H(w), wv)
 	}
